@@ -119,7 +119,12 @@ class Pool:
             w.close()
 
 
-def run_single(cmd, wall=60):
+# wall-clock watchdog of one run (seconds).  It is the only thing in a check that depends on real time: a run that
+# trips it is re-run alone with a much longer limit before it is believed (a heavy run on an overloaded machine is not a hang)
+WALL = int(os.environ.get("VERIF_WALL", "180"))
+
+
+def run_single(cmd, wall=WALL):
     """fresh process"""
     p = subprocess.run([NNGSIM, "run"] + cmd.split(), stdout=subprocess.PIPE, stderr=subprocess.DEVNULL, text=True,
                        timeout=wall + 30)
@@ -373,8 +378,8 @@ def replay_file(path):
     if not ok:
         print("BUILD FAILED")
         return 2
-    cmd = cmdline(doc["scenario"], doc["run_seed"], doc.get("params", {}), doc.get("work"), doc.get("fault"), 60)
-    r = run_single(cmd + " trace_level=3")
+    cmd = cmdline(doc["scenario"], doc["run_seed"], doc.get("params", {}), doc.get("work"), doc.get("fault"), 900)
+    r = run_single(cmd + " trace_level=3", wall=900)
     k, cls, sig, det = classify(r)
     print(json.dumps({"kind": k, "class": cls, "detail": det, "trace_hash": r.get("trace_hash")}, indent=1))
     for e in r.get("events", [])[-60:]:
@@ -428,7 +433,7 @@ def main(argv):
         for pi, prog in enumerate(progs):
             for si in range(nseeds):
                 s = mix(seed, prop, "enum", pi, si)
-                base_cmds.append(cmdline(prog["scenario"], s, prog.get("params", {}), wall=60))
+                base_cmds.append(cmdline(prog["scenario"], s, prog.get("params", {}), wall=WALL))
                 base_meta.append((pi, prog, s))
         base_res = pool.map(base_cmds)
         import random as _r
@@ -453,8 +458,8 @@ def main(argv):
             for k in ks:
                 params = dict(prog.get("params", {}))
                 params["fail_alloc_k"] = k
-                ent = {"scenario": prog["scenario"], "label": "k", "params": params, "wall": 60, "enum": True}
-                cmds.append(cmdline(prog["scenario"], s, params, wall=60))
+                ent = {"scenario": prog["scenario"], "label": "k", "params": params, "wall": WALL, "enum": True}
+                cmds.append(cmdline(prog["scenario"], s, params, wall=WALL))
                 meta.append((ent, s, params))
     for ent in plan.get("scenarios", []):
         n = ent["runs"][tier]
@@ -463,7 +468,7 @@ def main(argv):
             params = dict(ent.get("params", {}))
             if j < 2:
                 params["trace_level"] = 3
-            cmds.append(cmdline(ent["scenario"], s, params, wall=ent.get("wall", 60)))
+            cmds.append(cmdline(ent["scenario"], s, params, wall=ent.get("wall", WALL)))
             meta.append((ent, s, params))
     # interleave scenarios so a budget cut samples all of them
     order = sorted(range(len(cmds)), key=lambda i: (mix("o", i) % 1000003))
@@ -480,6 +485,12 @@ def main(argv):
     per_scen = {}
     viols = {}
     infra_first = None
+    rechecked = 0
+    for i, ((ent, s, params), r) in enumerate(zip(meta, results)):
+        if r is not None and r.get("status") == "hang" and rechecked < 8:
+            # the wall-clock watchdog fired: believe it only if the same run, alone and with a long limit, hangs again
+            rechecked += 1
+            r = results[i] = run_single(cmdline(ent["scenario"], s, {k: v for k, v in params.items()}, wall=900), wall=900)
     for (ent, s, params), r in zip(meta, results):
         if r is None:
             agg["skipped"] += 1
@@ -536,8 +547,16 @@ def main(argv):
         ent, s, params, r, cls, det = lst[0]
         p2 = {k: v for k, v in params.items() if k != "trace_level"}
         # gate (a): same seed reproduces identically
-        r2 = pool.map([cmdline(ent["scenario"], s, p2, wall=ent.get("wall", 60))])[0]
+        gwall = 900 if cls == "hang_wall" else ent.get("wall", WALL)
+        r2 = pool.map([cmdline(ent["scenario"], s, p2, wall=gwall)])[0]
         k2, cls2, _, _ = classify(r2)
+        if cls == "hang_wall" and cls2 != "hang_wall":
+            # the wall-clock watchdog is the one thing here that depends on real time: a run that completes when
+            # given a long limit was slow (overloaded machine), not hung
+            print(f"note: scenario={ent['scenario']} seed={s} exceeded the wall-clock watchdog but completes with a longer limit ({k2}/{cls2}): machine load, not a finding")
+            agg["violation"] -= len(lst)
+            agg["inconclusive"] += len(lst)
+            continue
         if k2 != "violation" or cls2 != cls or r2.get("trace_hash") != r.get("trace_hash"):
             print(f"NONDETERMINISM scenario={ent['scenario']} seed={s} first={cls}/{r.get('trace_hash')} second={cls2}/{r2.get('trace_hash')}")
             rc = max(rc, 2)
@@ -546,8 +565,8 @@ def main(argv):
         nshr = 0
         final = r
         if work is not None and not ent.get("enum"):
-            (work, fault), nshr = shrink(pool, ent["scenario"], s, p2, work, fault or [], cls, wall=ent.get("wall", 60))
-            final = pool.map([cmdline(ent["scenario"], s, p2, work, fault, ent.get("wall", 60)) + " trace_level=3"])[0]
+            (work, fault), nshr = shrink(pool, ent["scenario"], s, p2, work, fault or [], cls, wall=ent.get("wall", WALL))
+            final = pool.map([cmdline(ent["scenario"], s, p2, work, fault, ent.get("wall", WALL)) + " trace_level=3"])[0]
             kf_, clsf, _, _ = classify(final)
             if kf_ != "violation" or clsf != cls:
                 final = r
@@ -557,7 +576,7 @@ def main(argv):
         # gate (b): fresh-process replay, twice
         good = 0
         for _ in range(2):
-            rr = run_single(cmdline(ent["scenario"], s, p2, work, fault, ent.get("wall", 60)))
+            rr = run_single(cmdline(ent["scenario"], s, p2, work, fault, gwall), wall=gwall)
             kk, cc, _, _ = classify(rr)
             if kk == "violation" and cc == cls:
                 good += 1
